@@ -365,7 +365,8 @@ func checkC11(w *core.W) {
 				continue
 			}
 			w.Case(func() string { return "concurrent|" + b.name + " ## " + desc }, func() {
-				st := &Stats{Outcomes: map[string]int64{}, States: map[string]bool{}, Delay: b.delay}
+				// internal wall-clock budget per combination: running out of it caps the exploration (reported), never alarms
+				st := &Stats{Outcomes: map[string]int64{}, States: map[string]bool{}, Delay: b.delay, Deadline: time.Now().Add(90 * time.Second)}
 				reported := map[string]bool{}
 				var res []string
 				// iterative preemption bounding: every schedule with <=1 preemption first (complete,
